@@ -12,9 +12,10 @@ import Mfi.Driver.TxD
 import Mfi.Driver.RiskD
 import Mfi.Driver.TransferD
 import Mfi.Driver.IxD
+import Mfi.Driver.VenueD
 open Mfi.Driver
 
-def handlers : List (String → List Int → Option String) := [fxOp, panicOp, irOp, igOp, bankOp, tokOp, gateOp, authOp, adminOp, acctOp, txOp, riskOp, liqOp, xferOp, ixOp, liqIxOp, bkrIxOp, closeBankOp, venueOp]
+def handlers : List (String → List Int → Option String) := [fxOp, panicOp, irOp, igOp, bankOp, tokOp, gateOp, authOp, adminOp, acctOp, txOp, riskOp, liqOp, xferOp, ixOp, liqIxOp, bkrIxOp, closeBankOp, venueOp, venueIxOp]
 
 def stepLine (line : String) : String :=
   match line.trimAscii.toString.splitOn " " with
